@@ -434,6 +434,19 @@ func (m *Manager) lock() {
 			}
 			acctInfo.acctKeyPriv = nil
 		}
+
+		// Zero and drop all cached derived private keys.
+		var cachedPaths []DerivationPath
+		manager.privKeyCache.Range(
+			func(kp DerivationPath, k *cachedKey) bool {
+				k.key.Zero()
+				cachedPaths = append(cachedPaths, kp)
+				return true
+			},
+		)
+		for _, kp := range cachedPaths {
+			manager.privKeyCache.Delete(kp)
+		}
 	}
 
 	// Remove clear text private keys and scripts from all address entries.
